@@ -50,7 +50,7 @@ WORDS = ['build', 'aeabi', 'riscv', 'gnu', 'ARM v7', 'rv32i2p0_m2p0', 'Cortex-A9
 
 # ------------------------------------------------------------------ ELF container (harness-side assembly)
 def filler(n, salt):
-    return bytes(((i * 37 + salt * 11 + 5) % 251) + 1 for i in range(n))
+    return bytes(((i * 37 + salt * 11 + 5) % 127) + 1 for i in range(n))   # non-zero, ASCII range
 
 
 def build_elf(le, cls, machine, secs, total):
@@ -103,8 +103,10 @@ def rand_pad(rng):
     return rng.choice([0, 0, 0, 0, 1, 2, 4])
 
 
-def rand_str(rng):
+def rand_str(rng, ascii_only=False):
     r = rng.random()
+    if ascii_only:
+        return ''.join(chr(rng.randint(33, 126)) for _ in range(rng.randint(0, 12))).encode()
     if r < 0.6:
         s = rng.choice(WORDS)
     elif r < 0.9:
@@ -114,7 +116,8 @@ def rand_str(rng):
     return s.encode('utf-8')
 
 
-def rand_attr(rng, fl):
+def rand_attr(rng, fl, ascii_only=False):
+    rand_str = lambda r: globals()['rand_str'](r, ascii_only)
     ulebs, ntbs = (ARM_ULEB, ARM_NTBS) if fl == 'arm' else (RISCV_ULEB, RISCV_NTBS)
     r = rng.random()
     if fl == 'arm' and r < 0.10:
@@ -128,19 +131,19 @@ def rand_attr(rng, fl):
     return ['u', rng.choice(ulebs), rand_pad(rng), rand_uleb(rng), rand_pad(rng)]
 
 
-def rand_ssub(rng, fl, nattr):
+def rand_ssub(rng, fl, nattr, ascii_only=False):
     scope = rng.choice([1, 1, 2, 3])
     nums = []
     if scope != 1:
         nums = [[max(1, rand_uleb(rng)), rand_pad(rng)] for _ in range(rng.choice([0, 1, 1, 2, 3, 6]))]
-    return [scope, rand_pad(rng), nums, rand_pad(rng), [rand_attr(rng, fl) for _ in range(nattr)]]
+    return [scope, rand_pad(rng), nums, rand_pad(rng), [rand_attr(rng, fl, ascii_only) for _ in range(nattr)]]
 
 
-def rand_section(rng, fl, nsub, nss_choices, nattr_choices):
+def rand_section(rng, fl, nsub, nss_choices, nattr_choices, ascii_only=False):
     sec = []
     for _ in range(nsub):
         nss = rng.choice(nss_choices)
-        sec.append([rand_str(rng), [rand_ssub(rng, fl, rng.choice(nattr_choices)) for _ in range(nss)]])
+        sec.append([rand_str(rng, ascii_only), [rand_ssub(rng, fl, rng.choice(nattr_choices), ascii_only) for _ in range(nss)]])
     return sec
 
 
@@ -303,7 +306,7 @@ def gen(ctx):
     # malformed stream: one byte of a valid section replaced / section size changed (out of domain)
     for _ in range(80 * T):
         fl = rng.choice(['arm', 'riscv'])
-        sec = rand_section(rng, fl, rng.choice([1, 2]), [1, 2], [1, 2, 3])
+        sec = rand_section(rng, fl, rng.choice([1, 2]), [1, 2], [1, 2, 3], ascii_only=True)
         cases.append(('attr_mut', [fl, rng.random() < 0.5, 32, rng.choice([0, 5]), rng.choice([0, 9]), rng.choice(['eager', 'nested']),
                                    sec, rng.getrandbits(16), rng.choice([0, 0, 1, 2, 5, 0x41, 0x7f]), rng.choice([0, 0, 0, -1, 1, -3])]))
     # ---------------- prel31
@@ -525,8 +528,7 @@ def evaluate(ctx, cases):
             impl = norm_err(impl_call(observe_attr_section, w['img'], w['name'], w['mode']))
             nsub, nss = w['shape']
             if kind == 'attr':
-                key = ('attr-second-subsection-located-from-first-start' if nsub >= 2 else
-                       'attr-second-subsubsection-located-from-first-start' if nss >= 2 else 'attr')
+                key = ('attr/2+subsections' if nsub >= 2 else 'attr/2+subsubsections' if nss >= 2 else 'attr/single')
                 ctx.bump('attr_subsections', min(nsub, 6))
                 ctx.bump('attr_subsubsections_max', min(nss, 6))
                 ctx.bump('attr_mode', w['mode'])
@@ -553,8 +555,8 @@ def evaluate(ctx, cases):
             if ent is not None and ent[0] == 'gen':
                 signbit = signbit or bit26_ne_bit30(ent[3] % 2 ** 31)
             has_b2 = ent is not None and isinstance(spec, list) and spec[0] == 'ok' and isinstance(spec[1][2], bytes) and 0xb2 in spec[1][2]
-            key = ('prel31-sign-taken-from-bit-26' if signbit else
-                   'bytecode-b2-uleb-operand-misdelimited' if has_b2 else 'eh-' + (ent[0] if ent else 'index-error'))
+            key = ('eh/prel31-bit26!=bit30' if signbit else
+                   'eh/bytecode-with-b2' if has_b2 else 'eh/' + (ent[0] if ent else 'index-error'))
             ctx.bump('eh_kind', ent[0] if ent else 'index-error')
             ctx.record(kind, a, impl=impl, spec=spec, model=m, in_domain=dom,
                        nontrivial=ent is not None and (abs(ent[1]) >= 2 ** 26 or ent[0] not in ('cant', 'cidx')), key=key)
@@ -563,7 +565,7 @@ def evaluate(ctx, cases):
             has_b2 = any(i[0] == 'iu' for i in a[0])
             ctx.bump('bc_len', min(len(w['data']), 40))
             ctx.record(kind, a, impl=impl, spec=w['exp'], model=m, in_domain=w['wf'], nontrivial=len(a[0]) >= 2,
-                       key='bytecode-b2-uleb-operand-misdelimited' if has_b2 else 'bytecode')
+                       key='bytecode/with-b2-uleb' if has_b2 else 'bytecode/other')
         elif kind == 'bc_raw':
             impl = impl_call(decode_bc, w['data'])
             spec = w['exp']
@@ -572,9 +574,9 @@ def evaluate(ctx, cases):
                 spec = m          # a cut-off instruction: outside the property, model vs impl only
             ctx.bump('bc_first_byte_class', '%02x' % (a[0][0] & 0xf0))
             ctx.record(kind, a, impl=impl, spec=spec, model=m, in_domain=dom, nontrivial=len(a[0]) >= 2,
-                       key='bytecode-b2-uleb-operand-misdelimited' if 0xb2 in a[0] else 'bytecode')
+                       key='bytecode/with-b2-uleb' if 0xb2 in a[0] else 'bytecode/other')
         elif kind == 'prel31':
             impl = impl_call(arm_expand_prel31, a[0], a[1])
             ctx.bump('prel31_class', ('neg' if (a[0] >> 30) & 1 else 'pos') + ('-large' if bit26_ne_bit30(a[0]) or (a[0] & 0x3c000000) not in (0, 0x3c000000) else '-small'))
             ctx.record(kind, a, impl=impl, spec=w['spec'], model=w['model'], in_domain=0 <= a[0] < 2 ** 32 and a[1] >= 0,
-                       nontrivial=True, key='prel31-sign-taken-from-bit-26' if bit26_ne_bit30(a[0]) else 'prel31')
+                       nontrivial=True, key='prel31/bit26!=bit30' if bit26_ne_bit30(a[0]) else 'prel31/other')
